@@ -230,6 +230,11 @@ def run(ctx):
     import c17
     ctx.rule("C14-K5", "the guard of the /Prev walk stores and looks up offsets of the same kind (shared with C17-UNITS #visited-offsets)")
     c17.rule_seen_units(ctx, f, "C14-K5")
+    # a /Length that points at a stream (at the very stream it belongs to, say) must not be loaded as a stream again: the resolver stays abstract
+    # in the call graph, so this recursion (parser -> resolve_flags -> parse_indirect_object -> parse_stream_object -> resolve_flags) is not one of
+    # its cycles; what cuts it is the integer-only filter handed to resolve_flags
+    import c11
+    c11.rule_length(ctx, f, "C14-K6")
     return ctx.finish(
         "Static analysis of MIR facts: call graph instantiated with the concrete types of generic loaders (substitution + impl lookup), cycle "
         "enumeration with guard / budget / owned-descent / single-step witnesses; interprocedural taint of file numbers with type bounds, "
